@@ -51,10 +51,22 @@
           sent carries at most the announced segment MRU of data octets;
      (2g) C04_ack_echo  UNCONDITIONALLY the XFER_ACKs sent are exactly those owed
           for the handled frames ([ack_spec]: flags octet, transfer id and
-          cumulative length of every acceptable segment, in order). *)
+          cumulative length of every acceptable segment, in order).
+   Well-formedness and the closed channel property
+     C04_sent_wf  every frame sent fits its field widths ([wf_frame]), provided the
+          configuration does (keepalive < 2^16, segment MRU < 2^64, node id shorter
+          than 2^16 octets), reads deliver octets, terminate() reasons are octets,
+          bundles are octet strings shorter than 2^64, and fewer than 2^64
+          operations are performed / octets received;
+     C04_channel_closed  with C04_sent_accounting, C04_sent_wf and
+          C04_contact_first_map the channel lemma of C07 needs only the network
+          hypothesis: what B has handled is a prefix of what A has sent;
+     C04_pair_closed  hence an active A and a passive B connected by such a network
+          both send prefixes of legal sequences. *)
 From Coq Require Import List NArith Bool.
 Import ListNotations.
-From DTN Require Import Lib.Bytes Model.TcpclMsg Model.TcpclSess Proofs.TcpclSentProofs.
+From DTN Require Import Lib.Bytes Model.TcpclMsg Model.TcpclSess Proofs.TcpclSentProofs Proofs.TcpclSentProofs16.
+From DTN Require Proofs.TcpclChannelProofs.
 Local Open Scope N_scope.
 
 Theorem C04_sent_accounting : forall (c : cfg) (ops : list op),
@@ -217,6 +229,36 @@ Theorem C04_ack_echo : forall (c : cfg) (ops : list op),
 Proof. exact ack_echo. Qed.
 Print Assumptions C04_ack_echo.
 
+Theorem C04_sent_wf : forall (c : cfg) (ops : list op),
+  (c_keepalive c < 65536 /\ c_seg_mru c < 2^64 /\ N.of_nat (length (c_nodeid c)) < 65536 /\ wf_bytes (c_nodeid c)) ->
+  Forall (fun o => match o with
+                   | ORx d => wf_bytes d
+                   | OTerm r => r < 256
+                   | OSend d => wf_bytes d /\ N.of_nat (length d) < 2^64
+                   | _ => True
+                   end) ops ->
+  1 + N.of_nat (length ops) <= 2^64 -> N.of_nat (rx_total ops) < 2^64 ->
+  Forall wf_frame (sent (run c ops)).
+Proof. exact sent_wf. Qed.
+Print Assumptions C04_sent_wf.
+
+Theorem C04_channel_closed : forall (cA : cfg) (opsA : list op) (cB : cfg) (opsB : list op),
+  (exists rest, wire (run cA opsA) = TcpclChannelProofs.received (init cB) opsB ++ rest) ->
+  cfg_ok cA -> Forall op_ok opsA ->
+  1 + N.of_nat (length opsA) <= 2^64 -> N.of_nat (rx_total opsA) < 2^64 ->
+  exists more, sent (run cA opsA) = handled (run cB opsB) ++ more.
+Proof. exact channel_closed. Qed.
+Print Assumptions C04_channel_closed.
+
+Theorem C04_pair_closed : forall (cA : cfg) (opsA : list op) (cB : cfg) (opsB : list op),
+  c_passive cA = false -> c_passive cB = true ->
+  (exists rest, wire (run cA opsA) = TcpclChannelProofs.received (init cB) opsB ++ rest) ->
+  cfg_ok cA -> Forall op_ok opsA ->
+  1 + N.of_nat (length opsA) <= 2^64 -> N.of_nat (rx_total opsA) < 2^64 ->
+  legal_prefix_weak (sent (run cA opsA)) = true /\ legal_prefix_weak (sent (run cB opsB)) = true.
+Proof. exact C04_pair_closed. Qed.
+Print Assumptions C04_pair_closed.
+
 (* ---- Non-vacuity ---- *)
 Definition exA : cfg := mkCfg false [100] 30 60 1000 2 None.
 Definition exB : cfg := mkCfg true [101] 30 60 1000 2 None.
@@ -263,4 +305,18 @@ Example C04_passive_nonvacuous :
 Proof.
   vm_compute. repeat split; try reflexivity; try discriminate.
   eexists. reflexivity.
+Qed.
+
+(* the bounds hold for that configuration and operation list, and a network that
+   has delivered the first six octets A wrote satisfies the network hypothesis *)
+Example C04_bounds_nonvacuous :
+  cfg_ok exA /\ Forall op_ok exOpsA
+  /\ 1 + N.of_nat (length exOpsA) <= 2^64 /\ N.of_nat (rx_total exOpsA) < 2^64
+  /\ (exists rest, wire (run exA [OStart; OTxPump true 100])
+                   = TcpclChannelProofs.received (init exB) [OStart; ORx CHo] ++ rest).
+Proof.
+  split; [unfold cfg_ok; cbn; repeat split; try reflexivity; repeat constructor|].
+  split; [repeat constructor|].
+  split; [vm_compute; discriminate|]. split; [vm_compute; reflexivity|].
+  exists []. vm_compute. reflexivity.
 Qed.
